@@ -232,3 +232,97 @@ def classify(p):
     p = re.sub(r'<urn:uuid:[^>]+>', 'ID', p)
     p = re.sub(r'\d+', 'N', p)
     return p[:90]
+
+
+# ---------------------------------------------------------------- overlapping sessions
+def run_concurrent(params, chooser):
+    """Two HTTP sessions on two connections whose responses arrive interleaved in
+    environment-chosen order (chunks of ``chunk`` bytes).  -> (case, result)"""
+    import asyncio
+    import io
+    from vt.vloop import VLoop
+    from vt.sched import Env, drive
+    from vt.fakenet import Net, Peer
+    httpharn._imports()
+    items = params['items']
+    made = [A.make(*it) for it in items]
+    paths = ['/c%d' % i for i in range(len(items))]
+    wd = warcharn.new_workdir()
+    warcharn.reset_ids()
+
+    class P(Peer):
+        def __init__(self):
+            self.requests = {}
+
+        def on_connect(self, conn):
+            conn.state['buf'] = bytearray()
+
+        def on_data(self, conn, data):
+            buf = conn.state['buf']
+            buf += data
+            i = buf.find(b'\r\n\r\n')
+            if i < 0:
+                return
+            req = bytes(buf[:i + 4])
+            del buf[:i + 4]
+            path = req.split(b' ')[1].decode()
+            k = paths.index(path)
+            self.requests[k] = req
+            conn.send(made[k]['response'].encode('latin-1'))
+            if made[k]['close']:
+                conn.close_after_send()
+
+    loop = VLoop().install()
+    env = Env(loop)
+    peer = P()
+    net = Net(loop, env, peer, chunk=params.get('chunk', 48)).install()
+    recorder = None
+    try:
+        pool = httpharn.ConnectionPool(resolver=httpharn.FakeResolver(), max_host_count=4)
+        client = httpharn.Client(connection_pool=pool)
+        recorder, info = warcharn.make_recorder(params['rec'], wd)
+        recorder.listen_to_http_client(client)
+        done = {}
+
+        @asyncio.coroutine
+        def one(k):
+            req = httpharn.Request('http://%s%s' % (httpharn.HOST, paths[k]),
+                                   method=made[k]['method'])
+            out = io.BytesIO()
+            try:
+                with client.session() as session:
+                    yield from session.start(req)
+                    yield from session.download(out, rewind=False)
+                done[k] = True
+            except (httpharn.NetworkError, httpharn.ProtocolError):
+                done[k] = False
+        tasks = [loop.create_task(one(k)) for k in range(len(items))]
+        res = drive(loop, env, chooser, lambda: all(t.done() for t in tasks), horizon=20000,
+                    timers='idle', early=False)
+        close_err = None
+        try:
+            recorder.close()
+        except Exception as e:
+            close_err = repr(e)
+        files = warcharn.collect(wd)
+        exlog = []
+        for k in range(len(items)):
+            sent = made[k]['response'].encode('latin-1')
+            ref = rfc7230.decode(sent, made[k]['method'], eof=made[k]['close'])
+            if ref['error'] is None and ref['framing'] == 'length':
+                sent = sent[:ref['consumed']]
+            exlog.append(dict(url='http://%s%s' % (httpharn.HOST, paths[k]), sent=sent,
+                              received=peer.requests.get(k), completed=bool(done.get(k)),
+                              phase=0, obs=None))
+        case = dict(phases=[dict(rec=params['rec'], items=items)])
+        result = dict(files=files, exlog=exlog,
+                      pobs=[dict(recorder_close_error=close_err)], drive=res,
+                      env=list(env.log), task_errors=[repr(t.exception()) for t in tasks
+                                                      if t.done() and not t.cancelled()
+                                                      and t.exception()])
+        return case, result
+    finally:
+        net.uninstall()
+        loop.uninstall()
+        warcharn.teardown_logging()
+        warcharn.cleanup(wd)
